@@ -4,7 +4,9 @@ import (
 	"encoding/json"
 	"flag"
 	"fmt"
+	"math"
 	"strconv"
+	"strings"
 	"time"
 
 	"github.com/Vedant9500/WTF/internal/cache"
@@ -14,6 +16,7 @@ func init() {
 	commands["lru-info"] = lruInfo
 	commands["lru-tours"] = lruTours
 	commands["lru-random"] = lruRandom
+	commands["lru-searchcache"] = lruSearchCache
 }
 
 const lruUnit = time.Hour
@@ -223,5 +226,87 @@ func lruRandom(args []string) int {
 	}
 	d.w.close()
 	fmt.Printf("{\"traces\": %d, \"events\": %d}\n", *ntr, d.w.n)
+	return 0
+}
+
+// lruSearchCache: the typed front of the cache (cache.SearchCache: results filed under query + options) driven directly.
+// Events use the cache-layer vocabulary of TraceCacheLRU: "reset", "scput", "scget", "invalidate", "enable".
+func lruSearchCache(args []string) int {
+	fs := flag.NewFlagSet("lru-searchcache", flag.ExitOnError)
+	out := fs.String("out", "", "trace")
+	ntr := fs.Int("traces", 60, "traces")
+	length := fs.Int("len", 60, "operations per trace")
+	fs.Parse(args)
+	r := seededRand(1212)
+	w := newTraceWriter(*out)
+	in := newInterner()
+	type scEv struct {
+		Op    string `json:"op"`
+		ID    int    `json:"id"`
+		Ans   int    `json:"ans"`
+		Hit   bool   `json:"hit"`
+		Mon   bool   `json:"mon"`
+		B     bool   `json:"b"`
+		N     int    `json:"n"`
+		NRes  int    `json:"nres"`
+		Panic bool   `json:"panic"`
+		SH    int64  `json:"sh"`
+		SM    int64  `json:"sm"`
+		SE    int64  `json:"se"`
+		SZ    int    `json:"sz"`
+		Cap   int    `json:"cap"`
+		TTL   int    `json:"ttl"`
+		Tr    int    `json:"tr"`
+	}
+	listID := func(rs []cache.SearchResult) int {
+		var b strings.Builder
+		for _, x := range rs {
+			fmt.Fprintf(&b, "%v:%x;", x.Command, math.Float64bits(x.Score))
+		}
+		return in.str(in.answer, b.String())
+	}
+	queries := []string{"list files", "List Files", "compress", "  compress ", "docker ps", "find text"}
+	for t := 1; t <= *ntr; t++ {
+		capacity := []int{1, 2, 3, 50}[r.Intn(4)]
+		sc := cache.NewSearchCache(capacity, 0)
+		emit := func(e *scEv) {
+			st := sc.Stats()
+			e.SH, e.SM, e.SE, e.SZ, e.Tr = st.Hits, st.Misses, st.Evictions, st.Size, t
+			w.emit(e)
+		}
+		emit(&scEv{Op: "reset", Cap: capacity})
+		on := true
+		for i := 0; i < *length; i++ {
+			q := queries[r.Intn(len(queries))]
+			o := cache.SearchOptions{Limit: []int{0, 1, 2, 3, 5, 10}[r.Intn(6)], UseNLP: r.Intn(2) == 0}
+			id := in.str(in.keys, strings.ToLower(strings.TrimSpace(q))+fmt.Sprintf("|%d|%v", o.Limit, o.UseNLP))
+			switch x := r.Intn(100); {
+			case x < 45: // store a list of any length, shorter or longer than the limit in the options
+				n := r.Intn(8)
+				rs := make([]cache.SearchResult, n)
+				for j := range rs {
+					rs[j] = cache.SearchResult{Command: fmt.Sprintf("cmd-%d-%d", i, j), Score: float64(100-j) / 3}
+				}
+				sc.Put(q, o, rs)
+				emit(&scEv{Op: "scput", ID: id, Ans: listID(rs), NRes: n})
+			case x < 88:
+				rs, ok := sc.Get(q, o)
+				e := &scEv{Op: "scget", ID: id, Hit: ok, NRes: len(rs)}
+				if ok {
+					e.Ans = listID(rs)
+				}
+				emit(e)
+			case x < 93:
+				sc.Invalidate()
+				emit(&scEv{Op: "invalidate"})
+			default:
+				on = r.Intn(3) != 0
+				sc.Enable(on)
+				emit(&scEv{Op: "enable", B: on})
+			}
+		}
+	}
+	w.close()
+	fmt.Printf("{\"traces\": %d, \"events\": %d}\n", *ntr, w.n)
 	return 0
 }
